@@ -133,7 +133,9 @@ class ConstructionFrameAudit(FunctionSpec):
           idempotent above, and `update`/construction helpers that run before the object is shared);
       A2  no `global` / `nonlocal` statement in src/pest;
       A3  no mutable default argument ([], {}, set(), list(), dict()) in src/pest;
-      A4  no function mutates a module-level list / dict / set through its name (append, update, item store, ...).
+      A4  no function mutates a module-level list / dict / set through its name (append, update, item store, ...);
+      A5  no function writes or mutates an attribute of a class object (Cls.x, cls.x, type(self).x, self.__class__.x);
+          A1 also covers item stores through an attribute of self (self.x[k] = v).
     An over-approximation of 'writes to shared state' for direct writes (aliases are not followed)."""
 
     target = "pest.grammar.optimizer.Optimizer.optimize"
@@ -147,6 +149,7 @@ class ConstructionFrameAudit(FunctionSpec):
 
     def direct(self, run: Run) -> None:  # noqa: C901, PLR0912
         self_writes, globals_, mutable_defaults, module_mutations = [], [], [], []
+        class_writes: list[str] = []
         for path in sorted(_src_root().rglob("*.py")):
             rel = str(path.relative_to(_src_root()))
             tree = ast.parse(path.read_text())
@@ -196,10 +199,48 @@ class ConstructionFrameAudit(FunctionSpec):
                             v = sub.func.value
                             if isinstance(v, ast.Attribute) and isinstance(v.value, ast.Name) and v.value.id == "self" and (cls.name, v.attr) not in self.ALLOW_SELF_WRITES:
                                 self_writes.append(f"{rel}:{sub.lineno} {cls.name}.{fn.name}: self.{v.attr}.{sub.func.attr}()")
+                        # item stores / deletes through an attribute of self: self.x[k] = v, del self.x[k], self.x[k] += v
+                        for t in tgts:
+                            if isinstance(t, ast.Subscript):
+                                v = t.value
+                                while isinstance(v, ast.Subscript):
+                                    v = v.value
+                                if isinstance(v, ast.Attribute) and isinstance(v.value, ast.Name) and v.value.id == "self" and (cls.name, v.attr) not in self.ALLOW_SELF_WRITES:
+                                    self_writes.append(f"{rel}:{sub.lineno} {cls.name}.{fn.name}: self.{v.attr}[..] =")
+            # A5  state kept on a CLASS (shared by every instance and subclass): no method or function writes an attribute of a
+            #     class object (Cls.x = .., cls.x = .., type(self).x = .., self.__class__.x = ..) or mutates one in place
+            #     (Cls.x.append(..), Cls.x[k] = ..); class-level containers may only be read.
+            class_names = {c.name for c in ast.walk(tree) if isinstance(c, ast.ClassDef)}
+
+            def is_class_ref(e):
+                if isinstance(e, ast.Name) and (e.id in class_names or e.id == "cls"):
+                    return True
+                if isinstance(e, ast.Call) and isinstance(e.func, ast.Name) and e.func.id == "type":
+                    return True
+                return isinstance(e, ast.Attribute) and e.attr == "__class__"
+
+            for fn in [f for f in ast.walk(tree) if isinstance(f, ast.FunctionDef)]:
+                for sub in ast.walk(fn):
+                    tg = sub.targets if isinstance(sub, (ast.Assign, ast.Delete)) else [sub.target] if isinstance(sub, (ast.AugAssign, ast.AnnAssign)) else []
+                    for t in tg:
+                        v = t
+                        while isinstance(v, ast.Subscript):
+                            v = v.value
+                        if isinstance(v, ast.Attribute) and is_class_ref(v.value) and (v is t and isinstance(t.ctx, (ast.Store, ast.Del)) or v is not t):
+                            class_writes.append(f"{rel}:{sub.lineno} {fn.name}: {ast.unparse(t)} =")
+                    if isinstance(sub, ast.Call) and isinstance(sub.func, ast.Attribute) and sub.func.attr in self.MUTATORS:
+                        v = sub.func.value
+                        while isinstance(v, ast.Subscript):
+                            v = v.value
+                        if isinstance(v, ast.Attribute) and is_class_ref(v.value):
+                            class_writes.append(f"{rel}:{sub.lineno} {fn.name}: {ast.unparse(sub.func)}()")
+                    if isinstance(sub, ast.Call) and isinstance(sub.func, ast.Name) and sub.func.id == "setattr" and sub.args and is_class_ref(sub.args[0]):
+                        class_writes.append(f"{rel}:{sub.lineno} {fn.name}: setattr on a class")
         run.oblige("frame.audit.no_self_writes_outside_init", not self_writes, note=str(self_writes[:6]))
         run.oblige("frame.audit.no_global_statements", not globals_, note=str(globals_[:6]))
         run.oblige("frame.audit.no_mutable_defaults", not mutable_defaults, note=str(mutable_defaults[:6]))
         run.oblige("frame.audit.no_module_level_mutation", not module_mutations, note=str(module_mutations[:6]))
+        run.oblige("frame.audit.no_class_level_writes", not class_writes, note=str(class_writes[:6]))
 
 
 # ------------------------------------------------------------------ dynamic frame check of the construction side
